@@ -455,6 +455,20 @@ func (s *Session) bindCase(cs votedCase) error {
 				m.BlockHash = m.BlockHash[:len(m.BlockHash)-1]
 			case "append":
 				m.BlockHash = append(m.BlockHash, rb(32))
+			case "swap":
+				if len(m.BlockHash) < 2 {
+					m.StartBlockNumber++ // nothing to reorder: some other change
+				} else {
+					m.BlockHash[0], m.BlockHash[1] = m.BlockHash[1], m.BlockHash[0]
+				}
+			case "reverse":
+				if len(m.BlockHash) < 2 {
+					m.StartBlockNumber++
+				} else {
+					for i, j := 0, len(m.BlockHash)-1; i < j; i, j = i+1, j-1 {
+						m.BlockHash[i], m.BlockHash[j] = m.BlockHash[j], m.BlockHash[i]
+					}
+				}
 			default:
 				return false
 			}
@@ -503,6 +517,20 @@ func (s *Session) bindCase(cs votedCase) error {
 				m.NoWitnessTx = flipLastBit(m.NoWitnessTx)
 			case "fee":
 				m.TxFee += []uint64{1, 1 << 8, 1 << 32, 1 << 56, 4999000}[r.Intn(5)]
+			case "swap": // the ids in another order: output i of the transaction pays id i, so the order is part of what was voted
+				if len(m.Id) < 2 || m.Id[0] == m.Id[1] {
+					m.TxFee++
+				} else {
+					m.Id[0], m.Id[1] = m.Id[1], m.Id[0]
+				}
+			case "reverse":
+				if len(m.Id) < 2 || m.Id[0] == m.Id[len(m.Id)-1] {
+					m.TxFee++
+				} else {
+					for i, j := 0, len(m.Id)-1; i < j; i, j = i+1, j-1 {
+						m.Id[i], m.Id[j] = m.Id[j], m.Id[i]
+					}
+				}
 			default:
 				return false
 			}
